@@ -71,6 +71,8 @@ func checkC15(r *Run) propMeta {
 	checkStorageAliasing(r, "C15-R1-cached-set-readonly", newAliasAnalysis(r, cg, p, cp), bitmaps, roots)
 	// the component graph is built with the CSR builder: its offsets must be complete (shared with C14-R6)
 	checkPrefixArraysWrittenEveryIteration(r, cp, "C15-R5-component-graph-offsets")
+	checkPartialFlagMonotone(r, r.MustPkg("algo"))
+	checkNodeIDsNotNarrowed(r, r.MustPkg("algo"), cp)
 	r.Floor("C15-R1-cached-set-readonly", 8)
 
 	// ---- R4 roles
